@@ -214,11 +214,24 @@ pub fn threads() -> usize {
 
 /// Run all jobs on a thread pool. `per_case(stats, job_index, case)` is called for each case;
 /// `job_done(stats, job_index)` after each job.
+static RUN_INDEX: AtomicUsize = AtomicUsize::new(0);
+
+/// Crash localisation (driven by bin/check when an engine dies on a signal):
+///   MLX_TRACE=jobs   print `RUN r JOB i` to stderr before each job
+///   MLX_TRACE=cases  additionally print `CASE <int-rle> <frac-rle> <exp>` before each case
+///   MLX_ONLY=r:i     execute only job i of the r-th run_jobs call
 pub fn run_jobs<C, D>(jobs: &[Job], per_case: C, job_done: D) -> Stats
 where
     C: Fn(&mut Stats, usize, &Case) + Sync,
     D: Fn(&mut Stats, usize) + Sync,
 {
+    let run_index = RUN_INDEX.fetch_add(1, Ordering::SeqCst);
+    let trace = std::env::var("MLX_TRACE").unwrap_or_default();
+    let (trace_jobs, trace_cases) = (trace == "jobs" || trace == "cases", trace == "cases");
+    let only: Option<(usize, usize)> = std::env::var("MLX_ONLY").ok().and_then(|s| {
+        let (a, b) = s.split_once(':')?;
+        Some((a.parse().ok()?, b.parse().ok()?))
+    });
     let next = AtomicUsize::new(0);
     // MLX_SHARD=i/n: this process only executes jobs with index % n == i (slow monitors shard across processes)
     let shard: Option<(usize, usize)> = std::env::var("MLX_SHARD").ok().and_then(|s| {
@@ -245,9 +258,22 @@ where
                                     continue;
                                 }
                             }
+                            if let Some((r, j)) = only {
+                                if r != run_index || j != i {
+                                    continue;
+                                }
+                            }
+                            if trace_jobs {
+                                eprintln!("RUN {} JOB {}", run_index, i);
+                            }
                             {
                                 let st_ref = &mut st;
-                                let mut emit = |c: &Case| per_case(st_ref, i, c);
+                                let mut emit = |c: &Case| {
+                                    if trace_cases {
+                                        eprintln!("CASE {} {} {}", crate::rle_str(c.int), crate::rle_str(c.frac), c.exp);
+                                    }
+                                    per_case(st_ref, i, c)
+                                };
                                 let e: &mut Emit = &mut emit;
                                 (jobs[i])(e);
                             }
